@@ -460,6 +460,13 @@ const HELPERS: &str = r#"
                   (c19-descend (cdr x) (+ n 1))
                   (c19-descend (car x) (+ n 1))))
           n)))
+(define (c19-rows n kind acc)
+  (if (= n 0) acc
+      (c19-rows (- n 1) kind
+                (cons (if (= kind 0) (cons n "v")
+                          (if (= kind 1) (vector n 'r)
+                              (list n (list n))))
+                      acc))))
 (define (c19-closures n prev)
   (if (= n 0) prev (c19-closures (- n 1) (lambda () (+ 1 (prev))))))
 (define (c19-conts n prev)
@@ -829,6 +836,20 @@ fn run_data(scn: &Scn, pattern: &[Lv], leaf: &str) -> Result<String, String> {
                     phase("equal?");
                     let r = eval_all(&mut vm, "(equal? x y)")?;
                     note = format!("{} equal={:#}", nat, r);
+                    if scn.dir == "cdr-list" {
+                        // long in the cdr direction only, but with elements that are equal? without
+                        // being eqv?: an association list, a list of vectors, a list of lists
+                        for (kind, name) in ["association-list", "list-of-vectors", "list-of-lists"].iter().enumerate() {
+                            phase("setup:build");
+                            eval_all(&mut vm, &format!("(define x (c19-rows {} {} '())) (define y (c19-rows {} {} '()))", n, kind, n, kind))?;
+                            phase("equal?");
+                            let r = eval_all(&mut vm, "(equal? x y)")?;
+                            if format!("{:#}", r) != "#t" {
+                                return Err(format!("(equal? x y) on two separately built copies of a {} of {} elements is {:#}", name, n, r));
+                            }
+                        }
+                        note = format!("{} rows-equal=#t", note);
+                    }
                 }
                 "write" => {
                     let nat = natural(&vm);
